@@ -546,18 +546,24 @@ impl DrawState {
         // Here we calculate the terminal vertical real estate that the state requires
         let full_height = self.visual_line_count(.., term_width);
 
-        let shift = match self.alignment {
+        let mut shift = match self.alignment {
             // If we align to the bottom and the new height is less than before, clear the lines
             // that are not used by the new content.
-            MultiProgressAlignment::Bottom if full_height < *bar_count => {
-                let shift = *bar_count - full_height;
-                for _ in 0..shift.as_usize() {
-                    term.write_line("")?;
-                }
-                shift
-            }
+            MultiProgressAlignment::Bottom if full_height < *bar_count => *bar_count - full_height,
             _ => VisualLines::default(),
         };
+        // The padding belongs to the frame (it is counted in `bar_count` below), so it has to sit
+        // directly above the first bar line: text lines (`println`) stay above it, otherwise the
+        // next draw would erase them instead of the padding.
+        let mut padded = !matches!(
+            self.lines.first(),
+            Some(LineType::Text(_)) | Some(LineType::Empty)
+        );
+        if padded {
+            for _ in 0..shift.as_usize() {
+                term.write_line("")?;
+            }
+        }
 
         // Accumulate the displayed height in here. This differs from `full_height` in that it will
         // accurately reflect the number of lines that have been displayed on the terminal, if the
@@ -572,6 +578,13 @@ impl DrawState {
                 // Stop here if printing this bar would exceed the terminal height
                 if real_height.saturating_add(line_height) > term.height().into() {
                     break;
+                }
+
+                if !padded {
+                    for _ in 0..shift.as_usize() {
+                        term.write_line("")?;
+                    }
+                    padded = true;
                 }
 
                 real_height += line_height;
@@ -599,6 +612,10 @@ impl DrawState {
         }
 
         term.flush()?;
+        if !padded {
+            // no bar line was drawn below the text lines: there is no padding on the screen
+            shift = VisualLines::default();
+        }
         if shift != VisualLines::default() || !self.lines.is_empty() {
             self.cursor_below = false;
         } else if *bar_count != VisualLines::default() {
